@@ -265,6 +265,17 @@ func layoutOfStride(s int) geom.Layout {
 	return geom.Layout(s)
 }
 
+func boolName(f func() bool) string {
+	b := false
+	if ev, _ := call(func() { b = f() }); ev != "ok" {
+		return "panic"
+	}
+	if b {
+		return "true"
+	}
+	return "false"
+}
+
 func locName(f func() int) string {
 	r, msg := guardI(f)
 	if msg != "" {
@@ -319,6 +330,7 @@ func locateHandler(raw json.RawMessage) map[string]any {
 	}
 	var loc [][]string
 	var inr, onl, pil []bool
+	var inrv, onlv, pilv [][]string
 	for k, q := range qs {
 		row := []string{
 			locName(func() int { return int(xy.LocatePointInRing(geom.XY, q, flatOf(closed, 2, 0))) }),
@@ -346,8 +358,32 @@ func locateHandler(raw json.RawMessage) map[string]any {
 			b = lineintersector.PointIntersectsLine(lineintersector.RobustLineIntersector{}, q, closed[0], closed[1])
 		})
 		pil = append(pil, b && ev == "ok")
+		// the same predicates on the other variants of the ring, a panic recorded as such
+		inrv = append(inrv, []string{
+			boolName(func() bool { return xy.IsPointInRing(geom.XY, q, flatOf(closed, 2, 0)) }),
+			boolName(func() bool { return xy.IsPointInRing(geom.XY, q, flatOf(rev, 2, 0)) }),
+			boolName(func() bool { return xy.IsPointInRing(geom.XY, q, flatOf(dup, 2, 0)) }),
+			boolName(func() bool { return xy.IsPointInRing(geom.XYZ, finiteExtra(q, 1, 1e9), finiteFlat(closed, 3)) }),
+			boolName(func() bool { return xy.IsPointInRing(geom.XYZM, withExtra(q, 2, k), flatOf(closed, 4, k)) }),
+		})
+		onlv = append(onlv, []string{
+			boolName(func() bool { return xy.IsOnLine(geom.XY, q, flatOf(closed, 2, 0)) }),
+			boolName(func() bool { return xy.IsOnLine(geom.XYM, finiteExtra(q, 1, -1e9), finiteFlat(closed, 3)) }),
+			boolName(func() bool { return xy.IsOnLine(geom.XY, q, flatOf(closed[:n], 2, 0)) }), // the OPEN linestring
+		})
+		pilv = append(pilv, []string{
+			boolName(func() bool {
+				return lineintersector.PointIntersectsLine(lineintersector.RobustLineIntersector{}, q, closed[0], closed[1])
+			}),
+			boolName(func() bool {
+				return lineintersector.PointIntersectsLine(lineintersector.RobustLineIntersector{}, q, closed[1], closed[0])
+			}),
+			boolName(func() bool {
+				return lineintersector.PointIntersectsLine(lineintersector.RobustLineIntersector{}, finiteExtra(q, 2, 5), finiteExtra(closed[0], 1, 7), finiteExtra(closed[1], 3, 9))
+			}),
+		})
 	}
-	out := map[string]any{"loc": loc, "inring": inr, "online": onl, "onseg1": pil}
+	out := map[string]any{"loc": loc, "inring": inr, "online": onl, "onseg1": pil, "inringv": inrv, "onlinev": onlv, "onsegv": pilv}
 	if len(c.Qs) > 0 {
 		var xs [][]string
 		for _, p := range closed {
